@@ -1294,3 +1294,9 @@ TABLE["C10"] += [
     B("serialize-routine-named-after-the-template", {"T9"},
       (MW, "                    body += self.wrap_collector_function_serialize(\n                        collector_func[1].name,", "                    body += self.wrap_collector_function_serialize(\n                        collector_func[1].original.name,")),
 ]
+TABLE["C05"] += [
+    B("role-withheld-for-methods-only", {"I6"},
+      (MW, "            if is_method or is_static_method or is_property:\n                role = None", "            if is_method or is_static_method and is_property:\n                role = None")),
+    N("role-withheld-by-one-isinstance-of-a-tuple",
+      (MW, "            if is_method or is_static_method or is_property:\n                role = None", "            if isinstance(extra, (parser.Method, parser.StaticMethod, parser.Variable)):\n                role = None")),
+]
